@@ -305,6 +305,26 @@ def o174(ctx):
                 raise Unsupported(f"wedge-list column {c!r} is derived from the loader's values in a way the rule does not follow: {tm.show(t)[:100]}", node)
             ctx.finding(q, node, f"wedge-list column {c!r} must hold the values {want_.args[0].split('.')[-1]} returns, as they are; the code stores "
                         f"{tm.show(t)[:100]} (rounded / rescaled / converted values are not the input's)", node, m)
+    # a column taken from a TABLE a loader hands back (defocus_load returns a caller's DataFrame as given, with the caller's row labels) goes into the
+    # freshly built wedge list by position: the labels are stripped (.values / .to_numpy() / np.asarray) before the assignment, which otherwise aligns
+    # on the labels (rows of a table whose bad tilts were dropped, or that was re-sorted, land on other images or become NaN)
+    tables = {t_.id for a_ in ast.walk(fn) if isinstance(a_, ast.Assign) and isinstance(a_.value, ast.Call)
+              and (ctx.prog.resolve(m, a_.value.func) or "").endswith("ioutils.defocus_load") for t_ in a_.targets if isinstance(t_, ast.Name)}
+    for a_ in ast.walk(fn):
+        if not (isinstance(a_, ast.Assign) and len(a_.targets) == 1 and isinstance(a_.targets[0], ast.Subscript)):
+            continue
+        v_ = a_.value
+        from_table = [x for x in ast.walk(v_) if isinstance(x, ast.Subscript) and isinstance(x.value, ast.Name) and x.value.id in tables]
+        if not from_table:
+            continue
+        ctx.count(1)
+        stripped = (isinstance(v_, ast.Attribute) and v_.attr == "values") or (isinstance(v_, ast.Call) and isinstance(v_.func, ast.Attribute) and v_.func.attr in ("to_numpy", "tolist", "to_list")) \
+            or (isinstance(v_, ast.Call) and (ctx.prog.resolve(m, v_.func) or "") in ("numpy.asarray", "numpy.array"))
+        if not stripped and isinstance(v_, ast.Subscript) and v_ is from_table[0]:
+            ctx.finding(q, a_, f"`{norm_text(a_)[:80]}` assigns a column of the loader's table with its row labels: the assignment aligns on the labels instead of pairing "
+                        "row i with row i (a defocus table given as a DataFrame with dropped or re-sorted rows lands on other tilts / becomes NaN)", a_, m)
+        elif not stripped:
+            raise Unsupported(f"wedge list: `{norm_text(a_)[:80]}` derives a column from the loader's table in a way the label rule does not follow", a_)
     # row pairing: image i keeps its tilt, defocus and dose -- none of the per-image columns may be re-ordered or thinned on its own
     REORDER = ("numpy.sort", "numpy.unique", "numpy.argsort", "builtins.sorted", "numpy.flip", ".sort_values", "numpy.lexsort", "builtins.reversed")
     for c in ("tilt_angle", "defocus", "exposure"):
@@ -564,6 +584,15 @@ def o175(ctx):
                 mm, _ = ctx.prog.func(e.fn)
                 ctx.finding(e.fn, e.node, "an index label (already translated from a position among the kept images) is used as a "
                             "position again: after sort_by_tilt labels and positions differ and the wrong image is flagged", e.node, mm)
+        # the labels come from the selection of (kept) images as it stands in the full table: a selection that was renumbered 0..n-1 on the way
+        # (reset_index in kept_images / removed_images) hands out positions, which are then used as labels of the full table
+        renum = [e for e in it.events if e.kind == "call" and e.name == "DataFrame.reset_index" and e.fn.split(".")[-1] in ("kept_images", "removed_images", "remove_images")]
+        ctx.count(1)
+        if renum:
+            mm_, _ = ctx.prog.func(renum[0].fn)
+            ctx.finding(renum[0].fn, "index of the kept images", "the table of kept / removed images is renumbered 0..n-1 (reset_index) before remove_images takes its index "
+                        "as labels of the full image table: position k among the kept images is then used as label k of the full table -- right on a freshly read "
+                        "file, wrong after a first removal or after sort_by_tilt", renum[0].node, mm_)
         ctx.count(1)
         lab = [e for e in stores if e.extra.get("mask") is not None]
         if not lab or not any(tm.has_call(e.extra["mask"], "getitem") and tm.has_call(e.extra["mask"], "index") for e in lab):
